@@ -43,3 +43,26 @@ package metadata
 //@   ensures [pendingUnscheduled] pod.Status.Phase == v1.PodPending && noScheduledCond(pod) ==> !result
 //@   ensures [pendingScheduled] pod.Status.Phase == v1.PodPending ==> (forall i int :: firstScheduledAt(pod, i) ==> result == (pod.Status.Conditions[i].Status == v1.ConditionTrue))
 //@ end
+
+// Property C20: "requested, allocated ... equal the sums over its pods": folding one pod into the
+// running totals adds the pod's lists pointwise (absent = 0); the pod's metadata is not modified.
+//@ func (*PodGroupMetadata).AddPodMetadata
+//@   props C20
+//@   requires pgm != nil && podMetadata != nil
+//@   modifies pgm.Requested, pgm.Allocated
+//@   ensures [requestedSum] forall k v1.ResourceName :: pgm.Requested[k] == old(pgm.Requested[k]) + podMetadata.RequestedResources[k]
+//@   ensures [allocatedSum] forall k v1.ResourceName :: pgm.Allocated[k] == old(pgm.Allocated[k]) + podMetadata.AllocatedResources[k]
+//@   ensures [requestedKeys] forall k v1.ResourceName :: (k in pgm.Requested) == (old(k in pgm.Requested) || (k in podMetadata.RequestedResources))
+//@   ensures [allocatedKeys] forall k v1.ResourceName :: (k in pgm.Allocated) == (old(k in pgm.Allocated) || (k in podMetadata.AllocatedResources))
+//@   ensures [preemptibleKept] pgm.Preemptible == old(pgm.Preemptible)
+//@   ensures [nonNil] pgm.Requested != nil && pgm.Allocated != nil
+//@ end
+
+// the accumulator starts from zero (empty lists, not preemptible until computed)
+//@ func NewPodGroupMetadata
+//@   props C20
+//@   fresh
+//@   ensures result != nil && result.Allocated != nil && result.Requested != nil
+//@   ensures forall k v1.ResourceName :: !(k in result.Allocated) && !(k in result.Requested)
+//@   ensures !result.Preemptible
+//@ end
